@@ -133,6 +133,10 @@ fn chains(m: &Model) -> Vec<Vec<usize>> {
         let h = m.hs[*path.last().unwrap()].clone();
         let mut next: Vec<usize> = h.subs.clone();
         for inc in &h.includes {
+            // a chain does not enter a note it is already inside (the listing's cycle guard)
+            if path.iter().any(|i| m.hs[*i].key == *inc) {
+                continue;
+            }
             let mut acc = vec![];
             tops_of(m, inc, &mut vec![], &mut acc);
             next.extend(acc);
@@ -186,14 +190,17 @@ impl Property for C18 {
     fn strategy(&self, features: &Features, _tier: Tier) -> BoxedStrategy<PathCase> {
         let features = features.clone();
         let all = vec!["n1".to_string(), "n2".to_string(), "n3".to_string(), "n4".to_string(), "n5".to_string(), "n6".to_string()];
-        (1usize..=6, proptest::bool::weighted(0.04))
-            .prop_flat_map(move |(n, many)| {
+        (1usize..=6, proptest::bool::weighted(0.04), proptest::bool::weighted(0.2))
+            .prop_flat_map(move |(n, many, back_edges)| {
                 let ks: Vec<String> = all[..n].to_vec();
                 let mut docs: Vec<BoxedStrategy<String>> = vec![];
                 for i in 0..n {
                     let mut cfg = DocCfg::new(&features);
                     // outside the cycle finding's domain block references only point "forward": a DAG
-                    let mut targets: Vec<String> = if features.on("include_cycle") { ks.clone() } else { ks[i + 1..].to_vec() };
+                    // (one case in five may point backwards as well: cycles that hang below a note
+                    // nobody includes are listed like any other chain and stay in the strict domain;
+                    // cycles without such a root are recognised on the input, see check)
+                    let mut targets: Vec<String> = if features.on("include_cycle") || back_edges { ks.clone() } else { ks[i + 1..].to_vec() };
                     targets.push("missing".into());
                     cfg.pool = LinkPool { internal: targets.clone(), external: vec![] };
                     cfg.inline_pool = Some(LinkPool { internal: ks.clone(), external: vec!["https://example.com/p1".into()] });
@@ -270,8 +277,31 @@ impl Property for C18 {
             }
             cyc
         };
-        if has_cycle && !feature_on("include_cycle") {
-            return Verdict::Discard("known-domain: notes include each other in a cycle".into());
+        // the finding is about cycles that no unincluded note leads into: every note must be
+        // reachable, through includes, from a note nobody includes
+        let rootless = {
+            let mut inc: BTreeMap<String, BTreeSet<String>> = BTreeMap::new();
+            for h in &m.hs {
+                inc.entry(h.key.clone()).or_default().extend(h.includes.iter().cloned());
+            }
+            for (k, v) in &m.doc_includes {
+                inc.entry(k.clone()).or_default().extend(v.iter().cloned());
+            }
+            let mut reached: BTreeSet<String> = lib.keys().filter(|k| !m.referenced.contains(*k)).cloned().collect();
+            let mut stack: Vec<String> = reached.iter().cloned().collect();
+            while let Some(k) = stack.pop() {
+                if let Some(n) = inc.get(&k) {
+                    for t in n {
+                        if lib.contains_key(t) && reached.insert(t.clone()) {
+                            stack.push(t.clone());
+                        }
+                    }
+                }
+            }
+            lib.keys().any(|k| !reached.contains(k))
+        };
+        if rootless && !feature_on("include_cycle") {
+            return Verdict::Discard("known-domain: notes include each other in a cycle that no unincluded note leads into".into());
         }
         let mut expected_chains = chains(&m);
         expected_chains.sort();
